@@ -6,3 +6,4 @@ for id in $(python3 -c "import json;print(' '.join(c['property_id'] for c in jso
   echo "$id rc=$rc $(echo "$out" | grep '^property' | tail -1)"
   [ $rc -ne 0 ] && echo "$out" | grep -E "FAILED|VIOLATION|ERROR|panic" | head -5
 done
+exit 0
